@@ -22,7 +22,7 @@ PROP = {
         "fnt_def: only the (form, area length, name length) combinations instantiated; string contents concrete there",
         "xxx payloads longer than 2 bytes (xxx2..xxx4 forms need >= 256 payload bytes)",
         "post_post with more than 7 padding bytes",
-        "decoder totality for the string-carrying opcodes (xxx1-4, fnt_def1-4, pre: symbolic string lengths make the memcpy post-processing exceed memory) and for set_char/fnt_num single-byte opcodes (covered by the round trips)",
+        "decoder totality for string lengths > 2 and for xxx2-4 / fnt_def2-4 (symbolic string lengths make the memcpy post-processing exceed memory; lengths are pinned to 0..=2) and for set_char/fnt_num single-byte opcodes (covered by the round trips)",
         "transforms::VarRemover / Values::update ('rewriting a stream to avoid w,x,y,z preserves every position'): NOT decided. dvi::Values clones and compares nested heap vectors; CBMC ran out of memory on 3 symbolic operations (10 min), on 4 (19 min), and a shape-enumerating variant (36 shapes of 3 operations) did not finish in 30 min. A regression there is not detected by this check.",
     ],
     "assumptions": ["Kani/CBMC model of the Rust semantics and of alloc (Vec/String) is trusted", "rustc MIR as compiled by Kani's pinned toolchain, dev profile with overflow checks"],
@@ -52,6 +52,9 @@ PROP = {
         rt("c16_total_invalid_opcodes", "opcodes 250..=255: always InvalidOpCode", funcs=DE, timeout=900),
         rt("c16_total_rule_forms", "set_rule x every length 1..=10 (all truncations)", funcs=DE, timeout=900),
         rt("c16_total_end_postamble", "post_post x every length 1..=10", funcs=DE, timeout=900),
+        rt("c16_total_xxx1_pinned", "xxx1 with its length byte pinned to each of 0..=2, every truncation length 1..=5, other bytes symbolic", funcs=DE, timeout=900, stubs=[LOSSY]),
+        rt("c16_total_pre_pinned", "pre with the comment length pinned to each of 0..=2, every truncation length 1..=17", funcs=DE, timeout=1200, stubs=[LOSSY]),
+        rt("c16_total_fnt_def1_pinned", "fnt_def1 with area/name lengths pinned to each of {0,1}^2, every truncation length 1..=17", funcs=DE, timeout=1200, stubs=[LOSSY]),
         rt("c16_total_begin_postamble", "post x every length 1..=30 (all truncations)", funcs=DE, tier="thorough", timeout=1200),
         rt("c16_total_bop_and_post", "bop x every length 1..=46 (all truncations)", funcs=DE, tier="thorough", timeout=1200),
         rt("c16_rt_define_font_1_a0n2", "fnt_def1, every number<256/checksum/sizes; area len 0, name len 2 (concrete bytes)", tier="thorough", timeout=900, stubs=[LOSSY]),
